@@ -117,6 +117,7 @@ type lexer struct {
 	mode   mode
 	last   token // The last emitted token
 	parens int   // Number of open parenthesis
+	width  int   // Number of bytes consumed by the last call to next
 }
 
 // nextToken returns the next token emitted by the lexer.
@@ -142,25 +143,30 @@ func (l *lexer) tokenize() {
 func newLexer(input io.Reader) *lexer {
 	// TODO: lexer should use the reader.
 	i, _ := ioutil.ReadAll(input)
-	return &lexer{0, 0, 1, 0, string(i), make(chan token), nil, modeNormal, token{}, 0}
+	return &lexer{0, 0, 1, 0, string(i), make(chan token), nil, modeNormal, token{}, 0, 0}
 }
 
 func (l *lexer) next() (val string) {
 	verifLexStep()
 	if l.pos >= len(l.input) {
 		val = delimEOF
+		l.width = 0
 
 	} else {
 		val = l.input[l.pos : l.pos+1]
 
 		l.pos++
+		l.width = 1
 	}
 
 	return
 }
 
+// backup steps back over the value returned by the last call to next; at the
+// end of input nothing was consumed, so there is nothing to step back over.
 func (l *lexer) backup() {
-	l.pos--
+	l.pos -= l.width
+	l.width = 0
 }
 
 func (l *lexer) peek() string {
@@ -488,10 +494,10 @@ func lexCommentOpen(l *lexer) stateFn {
 		til = len(l.input[l.start:])
 	}
 	l.pos += til
-	if string(l.input[l.pos-1]) == delimTrimWhitespace {
-		l.backup()
+	if l.pos > l.start && string(l.input[l.pos-1]) == delimTrimWhitespace {
+		l.pos--
 		l.emit(tokenText)
-		l.next()
+		l.pos++
 	} else {
 		l.emit(tokenText)
 	}
@@ -565,6 +571,9 @@ func isName(str string) bool {
 }
 
 func isNumeric(str string) bool {
+	if str == delimEOF {
+		return false
+	}
 	for _, s := range str {
 		if !unicode.IsDigit(s) {
 			return false
@@ -575,6 +584,9 @@ func isNumeric(str string) bool {
 }
 
 func isPunctuation(str string) bool {
+	if str == delimEOF {
+		return false
+	}
 	for _, s := range str {
 		if !strings.ContainsAny(string(s), ",|?:.=") {
 			return false
